@@ -66,7 +66,26 @@ func printTrees(c *Ctx, trees []file.Info) ([][]byte, error) {
 	cmd.Stdin = &in
 	out, err := cmd.Output()
 	if err != nil {
-		return nil, fmt.Errorf("printInfo hook: %v", err)
+		// a crash of the printing code is an observation of the tree that causes it, not the end of the run:
+		// find the tree(s) by halving; the output of a crashing tree is what was written plus a marker line
+		if len(trees) == 1 {
+			if i := bytes.Index(out, []byte("\n==VERIF-SEP==\n")); i >= 0 {
+				out = out[:i]
+			}
+			return [][]byte{append(append([]byte{}, out...), []byte("<<the program crashed: "+err.Error()+">>\n")...)}, nil
+		}
+		if len(trees) == 0 {
+			return nil, fmt.Errorf("printInfo hook: %v", err)
+		}
+		a, errA := printTrees(c, trees[:len(trees)/2])
+		if errA != nil {
+			return nil, errA
+		}
+		b, errB := printTrees(c, trees[len(trees)/2:])
+		if errB != nil {
+			return nil, errB
+		}
+		return append(a, b...), nil
 	}
 	parts := bytes.Split(out, []byte("\n==VERIF-SEP==\n"))
 	if len(parts) != len(trees)+1 {
